@@ -204,8 +204,10 @@ def check_faults(run: lib.Run, mod, program: list[dict], wide: bool = False) -> 
             + (":temp-left" if impl["temps_left"] else "")
         run.count(cls)
         show = {**impl, "target": None if impl["target"] is None else bytes(impl["target"]).decode("utf-8", "replace")}
+        txt = lambda t: None if t is None else bytes(t).decode("utf-8", "replace")  # noqa: E731
+        at = program[mf["n"]] if mf["kind"] != "none" and mf["n"] < len(program) else None
         case = {"label": label, "scenario": sc, "fault": None if fault is None else fault.to_json(), "mechanism": mech,
-                "model_fault": mf, "impl": show}
+                "model_fault": mf, "faulted_step": at, "impl": show}
         run.case(["aw", label], mf["kind"] != "none", case if mf["kind"] != "none" else None)
         run.extra["fault_points"] = run.extra.get("fault_points", 0) + (1 if mf["kind"] != "none" else 0)
         proj_i = (impl["outcome"], impl["target"], impl["temps_left"] > 0, impl["bystander_ok"])
@@ -213,9 +215,10 @@ def check_faults(run: lib.Run, mod, program: list[dict], wide: bool = False) -> 
         if ans["spec_impl"] is False or not impl["bystander_ok"]:
             run.spec_failures.append({**case, "what": "atomic_write left the target neither complete old nor complete new, "
                                       "or a temp file after an exception, or touched another file (Spec.atomicOk)",
-                                      "model": {k: ans[k] for k in ("outcome", "target", "temp_left")}})
+                                      "model": {"outcome": ans["outcome"], "target": txt(ans["target"]), "temp_left": ans["temp_left"]}})
         elif proj_i != proj_m:
-            run.disagreements.append({**case, "model": {k: ans[k] for k in ("outcome", "target", "temp_left", "bystander_ok")}})
+            run.disagreements.append({**case, "model": {"outcome": ans["outcome"], "target": txt(ans["target"]),
+                                                        "temp_left": ans["temp_left"], "bystander_ok": ans["bystander_ok"]}})
 
 
 # ============================================================================= a reader at every instant
@@ -232,29 +235,29 @@ def check_instants(run: lib.Run, mod) -> None:
                     f.write(old.encode())
                 src = mod.FilePolicySource(path, include_mtime_in_etag=mt)
                 docs = [parse_independent(fmt, old.encode()), parse_independent(fmt, new.encode())]
-                shas = [hashlib.sha256(old.encode()).hexdigest(), hashlib.sha256(new.encode()).hexdigest()]
                 seen = []
 
-                def reader(idx, src=src, docs=docs, shas=shas, seen=seen, path=path):
+                def reader(idx, src=src, seen=seen):
                     try:
                         got = ["ok", src.load()]
                     except Exception as e:  # noqa: BLE001
                         got = ["raised", type(e).__name__]
-                    tag = src.etag()
-                    ok = got in docs and tag is not None and tag.split(":")[0] in shas \
-                        and docs.index(got) == shas.index(tag.split(":")[0])
-                    seen.append((idx, ok, got if not ok else None, tag))
+                    seen.append((idx, got, src.etag()))
 
                 res = awtrace.run_write(mod, path, new, None, "utf-8", on_step=reader)
                 reader(len(res["steps"]))
                 run.count("instant-reads", len(seen))
                 run.case(["instants", ext, mt], True)
                 run.extra["instant_reads"] = run.extra.get("instant_reads", 0) + len(seen)
-                bad = [s for s in seen if not s[1]]
-                if bad or seen[-1][3].split(":")[0] != shas[1]:
+                # every read is one of the two complete documents; the tag is a function of the document read, a different
+                # one for each (no assumption on the tag's format); the last read is the new document
+                bad = [(i, got, tag) for i, got, tag in seen if got not in docs or tag is None]
+                tags = [{tag for _, got, tag in seen if got == doc} for doc in docs]
+                if bad or any(len(t) > 1 for t in tags) or (tags[0] & tags[1]) or seen[-1][1] != docs[1] or seen[0][1] != docs[0]:
                     run.spec_failures.append({"label": f"instants{ext}", "what": "a reader between two steps of atomic_write saw something "
-                                              "that is neither the complete old nor the complete new document", "ext": ext,
-                                              "include_mtime": mt, "old": old, "new": new, "bad": bad[:3], "kind": "instants"})
+                                              "that is neither the complete old nor the complete new document (or a tag that does not go with it)",
+                                              "ext": ext, "include_mtime": mt, "old": old, "new": new, "bad": bad[:3],
+                                              "reads": [(i, docs.index(g) if g in docs else str(g)[:60], t) for i, g, t in seen], "kind": "instants"})
 
 
 # ============================================================================= reader thread vs writer thread
@@ -436,26 +439,53 @@ def hist_cmd(ext: str, mt: bool, ops: list[list], impl: list | None) -> dict:
     return cmd
 
 
-def expected_tag(m: dict | None) -> str | None:
+def documented_tag(m: dict | None) -> str | None:
+    """the documented rendering: sha256 hex, `sha:mtime_ns` in mtime mode (reported when it differs, not judged)"""
     if m is None:
         return None
     sha = hashlib.sha256(CONTENTS[m["sha_of"]].encode()).hexdigest()
     return sha if m["mtime"] is None else f"{sha}:{BASE_NS + m['mtime']}"
 
 
-def judge_history(ext: str, mt: bool, ops: list[list], impl: list, ans: dict) -> tuple[str | None, str | None, dict]:
+class TagMap:
+    """model tag ↔ implementation tag must be one injective renaming over the whole run (None ↔ None)"""
+
+    def __init__(self):
+        self.fwd: dict = {}
+        self.rev: dict = {}
+        self.format_differs = 0
+
+    def agree(self, m: dict | None, real_tag) -> bool:
+        if m is None or real_tag is None:
+            return m is None and real_tag is None
+        key = (m["sha_of"], m["mtime"])
+        if self.fwd.setdefault(key, real_tag) != real_tag or self.rev.setdefault(real_tag, key) != key:
+            return False
+        if real_tag != documented_tag(m):
+            self.format_differs += 1
+        return True
+
+
+def judge_history(ext: str, mt: bool, ops: list[list], impl: list, ans: dict, tm: TagMap | None = None) -> tuple[str | None, str | None, dict]:
     """(spec failure, disagreement, stats) for one history"""
+    tm = tm or TagMap()
     spec_fail = None
     disagree = None
-    stats = {"etags": 0, "loads": 0, "within": ans["within_claim"], "of": ans["etag_observations"]}
+    stats = {"etags": 0, "loads": 0, "within": ans["within_claim"], "of": ans["etag_observations"], "outside": 0, "outside_differs": 0}
     if ans["spec_impl"] is False:
         spec_fail = f"tag rules violated by observations {ans['spec_impl_first_bad']} (Spec.etagsOk: a tag iff a file; equal tags iff equal " \
                     f"content{' and mtime' if mt else ''}, within the proviso)"
     for i, (op, o, m) in enumerate(zip(ops, impl, ans["obs"])):
         if op[0] == "etag":
             stats["etags"] += 1
-            if o["etag"] != expected_tag(m["etag"]) and disagree is None:
-                disagree = f"op {i}: etag() = {o['etag']!r}, model: {expected_tag(m['etag'])!r}"
+            if stats["etags"] > stats["within"]:
+                # after an out-of-claim rewrite the property is silent: compared and counted, not judged
+                stats["outside"] += 1
+                probe = TagMap()
+                probe.fwd, probe.rev = dict(tm.fwd), dict(tm.rev)
+                stats["outside_differs"] += 0 if probe.agree(m["etag"], o["etag"]) else 1
+            elif not tm.agree(m["etag"], o["etag"]) and disagree is None:
+                disagree = f"op {i}: etag() = {o['etag']!r}, model: {m['etag']} (elsewhere in this run: {tm.fwd.get((m['etag']['sha_of'], m['etag']['mtime'])) if m['etag'] else None!r})"
         elif op[0] == "load":
             stats["loads"] += 1
             ml = m["load"]
@@ -504,12 +534,15 @@ def check_histories(run: lib.Run, mod, scale: int = 1) -> None:
             cmds.append(hist_cmd(ext, mt, ops, impl))
     finally:
         disk.close()
+    tm = TagMap()
     for (ext, mt, via, ops, label, impl), ans in zip(batch, proto.run_driver(cmds)):
-        spec_fail, disagree, st = judge_history(ext, mt, ops, impl, ans)
+        spec_fail, disagree, st = judge_history(ext, mt, ops, impl, ans, tm)
         excluded = st["within"] < st["of"]
         run.count(f"history:{label.split('#')[0]}:" + ("excluded-case" if excluded else "within-claim"))
         run.count("etag-observations", st["etags"])
         run.count("load-observations", st["loads"])
+        run.extra["tags_outside_claim"] = run.extra.get("tags_outside_claim", 0) + st["outside"]
+        run.extra["tags_outside_claim_differing_from_model"] = run.extra.get("tags_outside_claim_differing_from_model", 0) + st["outside_differs"]
         mods_before_read = any(o[0] in ("write", "touch", "delete") for o in ops[:-1])
         case = {"label": label, "ext": ext, "include_mtime": mt, "via_atomic_write": via, "ops": ops, "kind": "history",
                 "impl": [o if o is None or "etag" in o else {"load": str(o["load"])[:100]} for o in impl]}
@@ -522,6 +555,9 @@ def check_histories(run: lib.Run, mod, scale: int = 1) -> None:
             run.spec_failures.append({**case, "what": spec_fail})
         elif disagree:
             run.disagreements.append({**case, "what": disagree, "model": ans["obs"]})
+    if tm.format_differs:
+        run.notes.append(f"etag strings are not rendered as documented (sha256 hex[:mtime_ns]) in {tm.format_differs} observations; "
+                         "they are an injective renaming of the model's tags, which is all the property asks")
 
 
 def shrink_history(mod, case: dict) -> dict:
@@ -583,7 +619,9 @@ def check(run: lib.Run, audit: dict) -> int:
 
     violations = []
     if run.spec_failures:
-        c = run.spec_failures[0]
+        # the most concrete witness first: a fault point, then a history, then the interleaving / thread observations
+        rank = {None: 0, "history": 1, "instants": 2, "concurrent": 3}
+        c = min(run.spec_failures, key=lambda x: rank.get(x.get("kind"), 4))
         if c.get("kind") == "history":
             c = shrink_history(mod, c)
         path = run.write_replay("spec", {"what": c["what"], "case": c, "more": len(run.spec_failures) - 1,
